@@ -210,9 +210,13 @@ def run_cbmc(cfile, entry, unwind, unwindset=(), timeout=900, mem_gb=12, extra=(
         res['status'] = 'success'
     elif 'VERIFICATION FAILED' in out:
         res['status'] = 'failed'
-    else:
+    elif re.search(r'PARSING ERROR|CONVERSION ERROR|syntax error|failed to find symbol|invariant check failed|Usage error', out + err):
         res['status'] = 'error'
         res['tail'] = (out[-1500:] + err[-1500:])
+    else:
+        # no verdict and no front-end error: the solver process ran out of memory / was killed (rlimit)
+        res['status'] = 'timeout'
+        res['oom'] = True
     return res, out
 
 
@@ -283,7 +287,7 @@ def run_obligation(build, ob, tier, replay_dir, prop):
         r['cmd'] = res['cmd'].replace(build.scratch, '$SCRATCH')
         queries = 1
         if res['status'] == 'timeout':
-            r['status'] = 'inconclusive'; r['why'] = 'timeout %ss' % ob.timeout
+            r['status'] = 'inconclusive'; r['why'] = ('out of memory (limit %d GB)' % ob.mem_gb) if res.get('oom') else 'timeout %ss' % ob.timeout
         elif res['status'] == 'error':
             r['status'] = 'error'; r['why'] = res.get('tail', '')[-800:]
         elif res['status'] == 'failed':
